@@ -174,6 +174,8 @@ def injected(draw, rule=None):
             n_dirs = draw(st.integers(1, 2))
             parts = [[key, [other] * n_dirs]]
             pos, ncand = k - 2 + (n_dirs - 1) * 2, 4
+        if draw(st.booleans()):
+            parts = list(reversed(parts))     # the order in which the mapping lists the entries must not matter
         spec["partitioning"] = {"Z": parts}
     elif rule == "nway-after-occupancy":
         base = draw(product_base())
